@@ -815,6 +815,12 @@ Proof.
   - destruct (get_ref p f (c0 :: pkg)) as [[i f']|]; [|reflexivity]. destruct (find_svc sn (fl_svcs f')); [apply IH|reflexivity].
 Qed.
 
+Lemma all_funcs_ix_strip_flat fuel fi f svcs :
+  map (fun x => (snd (fst x), snd x)) (flat_map (all_funcs_ix fuel p fi f) svcs) = flat_map (all_funcs fuel true p f) svcs.
+Proof.
+  induction svcs as [|s svcs IH]; [reflexivity|]. cbn [flat_map]. rewrite map_app, IH, all_funcs_ix_strip. reflexivity.
+Qed.
+
 Lemma all_funcs_ix_ok : forall fuel fi f s, get_file p fi = Some f -> In s (fl_svcs f) -> Forall item_ok (all_funcs_ix fuel p fi f s).
 Proof.
   induction fuel as [|fuel IH]; intros fi f s Hf Hs; [constructor|]. simpl. apply Forall_app. split.
@@ -863,9 +869,9 @@ Proof.
   { intros fi c H. discriminate. }
   assert (Hcl : forall a nd, nth_error (ps_heap st) a = Some nd -> node_ok (ps_heap st) nd).
   { intros a nd H. destruct A as [A _]. apply (A a nd H). apply (D a nd H). }
-  simpl. f_equal. f_equal.
+  cbn [unroll_service]. f_equal. f_equal.
   apply (funcs_unroll _ sd Hcl _ _ _ Hitems R).
-  rewrite <- Ed. f_equal. clear. induction svcs as [|s svcs IH]; [reflexivity|]. simpl. rewrite map_app, IH, all_funcs_ix_strip. reflexivity.
+  rewrite all_funcs_ix_strip_flat. exact Ed.
 Qed.
 
 (* a cache hit returns the descriptor of the type the key denotes in the tree the cache belongs to (seeded change C14-1) *)
@@ -900,3 +906,79 @@ Proof.
   split; assumption.
 Qed.
 End Refine.
+
+(* ------------------------------------------------------------------ closed statements *)
+
+Lemma pdomain_split p o : pdomain p o = true -> o_base o = false /\ o_bodyfast o = false /\ no_alias_clash p = true /\ well_scoped p = true.
+Proof.
+  unfold pdomain. intros H. apply andb_true_iff in H. destruct H as [H H4]. apply andb_true_iff in H. destruct H as [H H3].
+  apply andb_true_iff in H. destruct H as [H1 H2]. apply negb_true_iff in H1. apply negb_true_iff in H2. auto.
+Qed.
+
+(* the Thrift IDL compiler as coded refines the elaboration specification: whenever both are defined, the descriptor graph built
+   by the transcription (with its compiling caches), read back to ANY depth, is the tree elab produces — fields exactly the kept
+   declared ones with the same columns, type graph identical incl. recursive / mutually recursive structs through the cache,
+   typedef chains, include-qualified names resolved in the right file, functions exact *)
+Theorem parse_refines_elab p o :
+  pdomain p o = true ->
+  forall st sn pfs sd e, parse p o = Some (st, sn, pfs) -> elab true true sd p o = Some e -> unroll_service sd (parse p o) = Some e.
+Proof.
+  intros Hd. destruct (pdomain_split p o Hd) as [H1 [H2 [H3 H4]]]. intros st sn pfs sd e. apply (parse_refines_elab_sec p o H1 H2 H3 H4).
+Qed.
+
+(* every finished struct descriptor in the graph is the image of the declared struct-like its label names: the kept fields one
+   by one (in order) with the columns of elab_meta, each field type denoting what the declaration says (resolves) *)
+Theorem parse_nodes_exact p o :
+  pdomain p o = true ->
+  forall st sn pfs, parse p o = Some (st, sn, pfs) ->
+  forall a nd, nth_error (ps_heap st) a = Some nd -> node_ok p o (ps_heap st) nd.
+Proof.
+  intros Hd st sn pfs Hp a nd Hn. destruct (pdomain_split p o Hd) as [H1 [H2 [H3 H4]]].
+  destruct (parse_inv_sec p o H1 H2 H3 H4 st sn pfs Hp) as [[A _] D]. apply (A a nd Hn). apply (D a nd Hn).
+Qed.
+
+(* cache soundness (the class of seeded change C14-1): in the final state — and, by ptype_spec, in every intermediate one — a
+   cache hit for key n in the cache of tree fi returns the descriptor of the struct-like that n denotes IN THAT TREE *)
+Theorem parse_cache_sound p o :
+  pdomain p o = true ->
+  forall st sn pfs, parse p o = Some (st, sn, pfs) ->
+  forall cid fi f c n e, nth_error (ps_caches st) cid = Some (fi, c) -> get_file p fi = Some f -> names_ok p f (TNamed n) = true ->
+  cache_find c n = Some e ->
+  exists nd ti tn, nth_error (ps_heap st) (ce_addr e) = Some nd /\ struct_of p fi f n = Some (ti, tn) /\
+                   pn_file nd = ti /\ pn_sname nd = tn /\ pn_target nd = ce_target e /\ pn_tname nd = n.
+Proof.
+  intros Hd st sn pfs Hp cid fi f c n e Hn Hf Hok Hfind. destruct (pdomain_split p o Hd) as [H1 [H2 [H3 H4]]].
+  destruct (parse_inv_sec p o H1 H2 H3 H4 st sn pfs Hp) as [A _].
+  apply (cache_hit_sound_sec p o st cid fi f c n e (ce_target e) A Hn Hf Hok Hfind eq_refl).
+Qed.
+
+(* the same for any state reached from a state satisfying the invariant by one parseType call *)
+Theorem ptype_preserves_inv p o :
+  pdomain p o = true ->
+  forall fuel st fi f cid rdepth target t st' r,
+  get_file p fi = Some f -> INV p o st -> cache_has st cid fi -> names_ok p f t = true ->
+  ptype fuel p o st fi f cid rdepth target t = Some (st', r) ->
+  INV p o st' /\ ext st st' /\ resolves p o (ps_heap st') target fi f t r.
+Proof. intros Hd. destruct (pdomain_split p o Hd) as [H1 [H2 [H3 H4]]]. apply (ptype_spec p o H1 H2 H3 H4). Qed.
+
+(* ------------------------------------------------------------------ annotation-driven columns *)
+
+(* api.none removes a field from RESPONSE descriptors only: it stays in requests and in exceptions (seeded change C14-9);
+   dynamicgo.deprecated removes it everywhere *)
+Theorem api_none_targets fd :
+  has_anno n_deprecated (f_annos fd) = false ->
+  field_kept 0 fd = true /\ field_kept 2 fd = true /\ field_kept 1 fd = negb (has_anno n_api_none (f_annos fd)).
+Proof. intros H. unfold field_kept, field_skipped. rewrite H. simpl. repeat split. Qed.
+
+Theorem deprecated_everywhere fd target : has_anno n_deprecated (f_annos fd) = true -> field_kept target fd = false.
+Proof. intros H. unfold field_kept, field_skipped. rewrite H. reflexivity. Qed.
+
+(* alias precedence: an api.key annotation with exactly one value wins over go.tag / api.body whatever the order of the
+   annotations; without any single-valued candidate the alias is the field name *)
+Theorem alias_api_key_first root fast fname annos v rest :
+  flat_map (fun a => if name_eqb (a_key a) n_api_key then [a_vals a] else []) annos = [v] :: rest ->
+  alias_of root fast fname annos = v.
+Proof. intros H. unfold alias_of, key_candidates. rewrite H. reflexivity. Qed.
+
+Theorem alias_default root fast fname annos : first_single (key_candidates root fast annos) = None -> alias_of root fast fname annos = fname.
+Proof. intros H. unfold alias_of. rewrite H. reflexivity. Qed.
